@@ -118,6 +118,7 @@ type BlockRec struct {
 	EndH     string // hash of EndBlock events + validator updates
 	AppHash  []byte
 	Plan     *upgradetypes.Plan // scheduled inside this block (takes effect at Height+1)
+	EarlyPlan *upgradetypes.Plan // a plan for a height several blocks ahead that every node skips by agreement (no handler, --unsafe-skip-upgrades): it sits in the committed state meanwhile
 	PlanViaGov bool // the plan was put in place by a governance proposal (x/gov executed MsgSoftwareUpgrade), not by the harness
 	FlatHash string
 	Panel    []PanelReq
@@ -193,6 +194,7 @@ type Exec struct {
 	didAccepted  []acceptedDidMsg
 	signMap      map[string]signedBody // sign-bytes hash -> message list it was computed for (C14 injectivity)
 	nextPlan     *upgradetypes.Plan
+	nextEarly    int
 	snapshots    map[int64]*SimDB // DB of R0 right after Commit(h) (for crash enumeration)
 	simTime      time.Duration
 	bootCount    int
@@ -370,6 +372,8 @@ func (e *Exec) Run() {
 			e.hostileQuery(st.HQ)
 		case "simulate":
 			e.simulateOnly(st)
+		case "planahead":
+			e.nextEarly = st.Ahead
 		case "upgrade":
 			name := "v2.2.1"
 			if st.PlanName != "" {
@@ -536,6 +540,20 @@ func (e *Exec) produceBlock(st *Step) {
 	}
 	if e.stop {
 		return
+	}
+	if e.nextEarly > 0 {
+		plan := upgradetypes.Plan{Name: "v8.8.8-never-built", Height: h + 1 + int64(e.nextEarly), Info: "panasim"}
+		e.nextEarly = 0
+		_, halt := r0.guard("ScheduleUpgrade", func() {
+			if err := r0.App.UpgradeKeeper.ScheduleUpgrade(r0.DeliverCtx(), plan); err != nil {
+				panic(err)
+			}
+		})
+		if halt == nil {
+			rec.EarlyPlan = &plan
+			e.Stats.Inc("fault.upgrade.pending_plan_for_skipped_height")
+			e.Trace.Ev("upgrade plan %s scheduled for height %d (skipped by agreement)", plan.Name, plan.Height)
+		}
 	}
 	if e.nextPlan != nil {
 		plan := *e.nextPlan
